@@ -1149,6 +1149,86 @@ def store_key_is_first_read():
             and ast.unparse(binds[0].value.func).endswith("get_terminal_size") and len(reads) == 1)
 
 
+def size_read_under_lock():
+    """AST of get_cell_size: is every `get_terminal_size()` call lexically inside the `with _cell_size_lock` block?"""
+    import ast
+    import inspect
+    import textwrap
+
+    tree = ast.parse(textwrap.dedent(inspect.getsource(_real_gcs.__wrapped__ if hasattr(_real_gcs, "__wrapped__") else _real_gcs)))
+    fn = [n for n in ast.walk(tree) if isinstance(n, ast.FunctionDef) and n.name == "get_cell_size"][0]
+    inside = set()
+    for w in ast.walk(fn):
+        if isinstance(w, ast.With) and any("_cell_size_lock" in ast.unparse(i.context_expr) for i in w.items):
+            inside |= {id(n) for n in ast.walk(w)}
+    reads = [n for n in ast.walk(fn) if isinstance(n, ast.Call) and ast.unparse(n.func).endswith("get_terminal_size")]
+    return bool(reads) and all(id(n) in inside for n in reads)
+
+
+WAIT_WINS = {"ioctl": ((80, 24, 800, 480, 10, 20, 800, 480), (100, 40, 1200, 1000, 12, 25, 1200, 1000),
+                       (120, 50, 1080, 900, 9, 18, 1080, 900)),
+             "query": ((80, 24, 0, 0, 10, 20, 800, 480), (100, 40, 0, 0, 12, 25, 1200, 1000),
+                       (120, 50, 0, 0, 9, 18, 1080, 900))}
+
+
+def waiter_scenario(path):
+    """T1 is inside a lookup at size A (parked right after its ioctl, holding `_cell_size_lock`); the terminal
+    becomes B; T2 calls get_cell_size() and has to wait for the lock; the terminal becomes C; T1 is released, T2
+    proceeds.  Returns the values (T1, T2, then get_cell_size() back at B, at C, at A) and the failure."""
+    A, B, C = WAIT_WINS[path]
+    term = dict(RACE_TERM)
+    reset_all()
+    vt.reset(term, A)
+    SigLock.waiting = threading.Event()
+    utils._cell_size_lock = SigLock()
+    res, ev = {}, {n: threading.Event() for n in ("T1", "T2")}
+    try:
+        def run(name):
+            def body():
+                r = _real_gcs()
+                res[name] = "none" if r is None else "size %d %d" % tuple(r)
+                ev[name].set()
+            return threading.Thread(target=body, daemon=True)
+
+        t1 = run("T1")
+        PAUSE[0] = dict(thread=t1, reached=threading.Event(), go=threading.Event())
+        t1.start()
+        if not PAUSE[0]["reached"].wait(20):
+            raise RuntimeError("T1 never reached its ioctl")
+        vt.win = B
+        t2 = run("T2")
+        t2.start()
+        for _ in range(4000):
+            if ev["T2"].is_set() or SigLock.waiting.is_set():
+                break
+            ev["T2"].wait(0.005)
+        else:
+            raise RuntimeError("T2 neither finished nor blocked")
+        vt.win = C  # a resize while T2 waits for the lock
+        PAUSE[0]["go"].set()
+        for n in ("T1", "T2"):
+            if not ev[n].wait(20):
+                raise RuntimeError(f"{n} never finished")
+        PAUSE[0] = None
+        checks = []
+        for w in (B, C, A):  # first straight back to the size T2 was called at
+            vt.win = w
+            checks.append(do_op(("gcs",)))
+    finally:
+        PAUSE[0] = None
+        reset_all()
+    vals = [res["T1"], res["T2"]] + checks
+    fail = None
+    for w, got in zip((B, C, A), checks):
+        want = fresh_table(term, w, False, True)["gcs"]
+        if got != want and fail is None:
+            fail = Failure("lock_wait_race/get_cell_size",
+                           f"[{path}] a lookup that had to wait for `_cell_size_lock` (terminal {B[:2]} when it was called, "
+                           f"{C[:2]} when it got the lock): later, at terminal {w[:4]}, get_cell_size() = {got} but a fresh "
+                           f"computation gives {want}", extra=dict(values=vals))
+    return vals, fail
+
+
 FLAG_NAMES = ("_swap_win_size", "_queries_enabled")
 
 
@@ -1668,6 +1748,7 @@ class C15(Property):
             f"def initAcr : Option Bool := {lopt(eval(acr0[0].split('=')[1]) if acr0 else 'missing')}\n"
             f"def initSupported : Option Bool := {lopt(sup0)}\n"
             f"def storeKeyIsFirstRead : Bool := {lb(store_key_is_first_read())}\n"
+            f"def sizeReadUnderLock : Bool := {lb(size_read_under_lock())}\n"
             f"def cachedInvalSteps : List Nat := {cached_inval_steps()}\n"
             f"def handoverUnderCellLock : Bool := {lb(handover_under_cell_lock())}\n"
             f"def memoized : List String := [{', '.join(chr(34) + m + chr(34) for m in memoized_functions())}]\n"
@@ -1689,6 +1770,10 @@ class C15(Property):
                 yield Case(" ".join(line.split()), dict(toggle=name, k=k), "race", True)
         for tg in ("swon", "qon"):
             yield Case(f"handover {tg}", dict(toggle=tg), "handover", True)
+        for path in ("ioctl", "query"):
+            A, B, C = WAIT_WINS[path]
+            line = "waiter %s %s %s %s" % (term_line(RACE_TERM), " ".join(map(str, A)), " ".join(map(str, B)), " ".join(map(str, C)))
+            yield Case(line, dict(path=path), "waiter", True)
         isteps = cached_inval_steps()
         for fname in ("nv", "co"):
             for j in sorted({p["j"] for p in inval_explore(fname)}):
@@ -1735,6 +1820,10 @@ class C15(Property):
             return res
         if op == "divbits":
             return "ok " + f64hex(case.data["a"] / case.data["b"])
+        if op == "waiter":
+            vals, f = waiter_scenario(case.data["path"])
+            self.side[case.line] = f
+            return "ok " + "|".join(vals)
         if op == "racer":
             pts = [p for p in inval_explore(case.data["fn"]) if p["j"] == case.data["j"]]
             if not pts:
@@ -1768,6 +1857,8 @@ class C15(Property):
                         g.case = case
                         self.more.append(g)
                 return f
+        if op == "waiter":
+            return self.side.pop(case.line) if case.line in self.side else waiter_scenario(case.data["path"])[1]
         if op == "racer" and case.data["j"] == 0:
             f = inval_failures(case.data["fn"])
             if f:
@@ -1807,6 +1898,15 @@ class C15(Property):
         out, seen = [], set()
         alphabet = [("qoff",), ("qon",), ("swon",), ("gcs",), ("gnv",), ("iok",), ("ksup",), ("isup",), ("gco", "0"),
                     ("sr", "dynamic"), ("gcr",), ("rs", (80, 30, 0, 0, 9, 18, 720, 540))]
+        for path in ("ioctl", "query"):
+            f = waiter_scenario(path)[1]
+            if f:
+                A, B, C = WAIT_WINS[path]
+                f.case = Case("waiter %s %s %s %s" % (term_line(RACE_TERM), " ".join(map(str, A)), " ".join(map(str, B)),
+                                                      " ".join(map(str, C))), dict(path=path))
+                out.append(f)
+        if out:
+            return out
         isteps = cached_inval_steps()
         for fname in ("nv", "co"):
             for f in inval_failures(fname):
